@@ -325,3 +325,14 @@ def describe(case):
     return {"model": pretty(case["model"]), "setup": case["setup"], "loss": case["loss"], "observed": case["obs"],
             "spread": case["spread"], "weights": case["weights"], "target_param": case["target_param"],
             "target_state": case["target_state"], "theta_eval": case["theta_eval"]}
+
+
+def construction_theta(case):
+    """The free-parameter values the loss object is constructed with (what cost() with theta left at its default refers to)."""
+    m, su = case["model"], case["setup"]
+    tp = case["target_param"]
+    theta0 = list(su["theta"]) if tp is None else [su["theta"][m["params"].index(q)] for q in tp]
+    if (case.get("forms") or {}).get("theta") in ("int_list", "int_array"):
+        return [1.0] * len(theta0)
+    return [float(v) for v in theta0]
+
